@@ -180,7 +180,8 @@ fn replay_line(g: &Value, st: &mut Stats, sample: &mut Vec<Value>) -> Vec<Value>
             which.push(j);
         }
     }
-    let obs = run::run_cases(&cases, &toks, &mut st.runs);
+    let sched = if h % 3 == 0 { Some(h >> 8) } else { None };
+    let obs = run::run_cases(&cases, &toks, sched, &mut st.runs);
     let mut out = Vec::new();
     let mut reported = vec![false; exps.len()];
     for (i, o) in obs.iter().enumerate() {
@@ -330,7 +331,9 @@ fn random_scen(rng: &mut StdRng) -> Scen {
 }
 
 fn record_of(sc: &Scen, st: &mut Stats) -> Value {
-    let obs = run::run_cases(std::slice::from_ref(&sc.case), &sc.toks, &mut st.runs);
+    let h = hash(&sc.toks, util::seed());
+    let sched = if h % 2 == 0 { Some(h >> 8) } else { None };
+    let obs = run::run_cases(std::slice::from_ref(&sc.case), &sc.toks, sched, &mut st.runs);
     st.cases += 1;
     *st.by_feed.entry(sc.case.feed.name()).or_default() += 1;
     record(&sc.case, &sc.toks, &obs[0])
